@@ -34,11 +34,15 @@ from tools.lib import common
 JUNK = [b"garbage", b"\x80\x04\x95", b"\x00" * 16, b"not a pickle at all \xff\xfe", b"\x80\x05N", b"(lp0\n"]
 PAUSE_TO_PC = {"exists": "started", "open-r": "willOpen", "load": "willLoad", "open-w": "willCompute",
                "close": None, "replace": "willRename"}
-WAIT = 120.0
+WAIT = 60.0
 
 
 class Killed(BaseException):
     """Simulated kill of a caller at a pause point."""
+
+
+class SchedulerStuck(Exception):
+    """A call did not reach its next pause point (or its end) within WAIT seconds."""
 
 
 class Table:
@@ -194,6 +198,7 @@ class RealRunner:
         self.procs: dict[int, _Proc] = {}
         self.by_thread: dict[int, _Proc] = {}
         self.cut_chooser = None
+        self.stuck = False
         self.force_pid = None  # set to an int: every caller reports this os.getpid() (threads of ONE process)
         self._limit_memory()
         self._install()
@@ -317,8 +322,11 @@ class RealRunner:
 
     def close(self):
         for proc in list(self.procs.values()):
-            if proc.at != "idle":
-                self._crash(proc)
+            if proc.at != "idle" and not self.stuck:
+                try:
+                    self._crash(proc)
+                except SchedulerStuck:
+                    break
         s = self._saved
         builtins.open = s["bopen"]
         io.open = s["ioopen"]
@@ -431,7 +439,8 @@ class RealRunner:
 
     def _wait(self):
         if not self.back.acquire(timeout=WAIT):
-            raise common.InfraError("C16 scheduler: a call did not reach its next pause point in time")
+            self.stuck = True
+            raise SchedulerStuck(f"a call did not reach its next pause point within {WAIT:.0f} s")
 
     def call(self, p: int, mode: str, e: int) -> str:
         proc = self.procs.get(p)
